@@ -414,7 +414,7 @@ func buildEvidence(id, tier string, seed int, spec checkSpec, results []*harness
 			discharged += o.Discharged
 			folded += o.Trivial
 			violated += o.Violated
-			if o.Discharged+o.Violated > 0 {
+			if o.Reached > 0 {
 				distinct++
 			}
 			ob[tag] = o
@@ -447,8 +447,9 @@ func buildEvidence(id, tier string, seed int, spec checkSpec, results []*harness
 		"evaluations":                   queries,
 		"distinct_nontrivial":           distinct,
 		"rule": "states = feasible paths of the harness functions explored by symbolic execution of the SSA of /repo's current tree; " +
-			"transitions = SSA instructions interpreted; evaluations = SMT queries sent to z3; distinct_nontrivial = assertion sites (tags) " +
-			"with at least one obligation that was not constant-folded and went to the solver; traces_validated_against_impl = reachability " +
+			"transitions = SSA instructions interpreted; evaluations = SMT queries sent to z3; distinct_nontrivial = distinct assertion sites (harness, tag) reached on at least one " +
+			"feasible path with symbolic inputs (each is discharged either by an unsat answer of the solver or, when the two sides are " +
+			"syntactically the same hash-consed term, by the term store: see discharged_by_solver / discharged_by_folding); traces_validated_against_impl = reachability " +
 			"witness models replayed against the natively compiled package with identical outcome",
 		"obligations":             oblig,
 		"discharged_by_solver":    discharged,
